@@ -573,6 +573,11 @@ func CipherUnmarshal(data []byte) ([]byte, error) {
 	if err != nil {
 		return nil, err
 	}
+	// C1 = (x, y) must be given as two field elements and C3 as one SM3 digest: a negative or over-long
+	// INTEGER, or a digest of another length, would otherwise be re-split into some other C1 | C3 | C2
+	if cipher.XCoordinate.Sign() < 0 || cipher.YCoordinate.Sign() < 0 || len(x) > 32 || len(y) > 32 || len(hash) != 32 {
+		return nil, errors.New("sm2: invalid point coordinate or digest in ASN.1 ciphertext")
+	}
 	if n := len(x); n < 32 {
 		x = append(zeroByteSlice()[:32-n], x...)
 	}
